@@ -1321,7 +1321,7 @@ def condition_inventory(P, files):
         gx = None
         # predicates: a closure / function returning bool contributes the comparison(s) that define its result
         if fn['ret'] == 'bool':
-            gx = GuardExtractor(body)
+            gx = GuardExtractor(body, resolve_upvars=True)
             for d in body.defs.get(0, []):
                 rel = None
                 if d[0] == 'st' and d[1]['k'] == 'bin':
@@ -1361,7 +1361,7 @@ def condition_inventory(P, files):
             if l is None:
                 continue
             if gx is None:
-                gx = GuardExtractor(body)
+                gx = GuardExtractor(body, resolve_upvars=True)
             rel = gx.cond_of_local(l)
             key = canonical_condition(rel)
             if key is None:
@@ -1398,7 +1398,7 @@ def _variant_tests(P, files):
                 if not m:
                     continue
                 if o is None:
-                    o = Origins(body)
+                    o = Origins(body, resolve_upvars=True)
                 x = normalise_operand(o.op_str({'k': 'copy', 'pl': d[1]['pl']}))
                 key = ('Option::is_some(%s)' if 'Option' in m.group(1) else 'Result::is_ok(%s)') % x
                 fl = fn['loc'].rsplit(':', 1)[0]
@@ -1479,7 +1479,7 @@ def wiring_inventory(P, files):
             if re.search(r'(Clone::clone|fmt::|Default::default|::deref(_mut)?$|::from$|::into$|::as_ref$|::borrow|Mls(Size|Encode|Decode)::|IntoAnyError)', cn):
                 continue
             if o is None:
-                o = Origins(body)
+                o = Origins(body, resolve_upvars=True)
             oq = owner_qual(P, fn)
             for i, a in enumerate(t['args']):
                 s = normalise_operand(o.op_str(a))
